@@ -166,6 +166,23 @@ def rule_scheduler_forwarded(rep: Report, rule: str, root: Fn) -> int:
     if not names:
         return 0
     n = 0
+    # precedence: `explicit or subscribe-time or default` -- the scheduler given to the operator / factory wins over the one
+    # given to subscribe() (25 of 25 sites on the pinned tree)
+    ps = [p for p in root.params if p != "self"]
+    sub_sched = ps[1]
+    for g in root.walk():
+        if not g.is_func:
+            continue
+        for nd in g.direct_nodes():
+            if isinstance(nd, ast.BoolOp) and isinstance(nd.op, ast.Or) and any(isinstance(v, ast.Name) and v.id == sub_sched and g.owner(v.id) is root for v in nd.values):
+                outer = [i for i, v in enumerate(nd.values) if isinstance(v, ast.Name) and g.owner(v.id) is not None and g.owner(v.id) is not root
+                         and g.owner(v.id).is_func and v.id in g.owner(v.id).params]
+                inner = [i for i, v in enumerate(nd.values) if isinstance(v, ast.Name) and v.id == sub_sched]
+                if outer:
+                    n += 1
+                    rep.ob(rule, g, f"{root.qual}: `{short(nd, 60)}`: the operator's own scheduler takes precedence", max(outer) < min(inner),
+                           f"{g.qual}: `{short(nd, 70)}` lets the scheduler passed to subscribe() override the scheduler the "
+                           f"operator / factory was explicitly given: a sequence pinned to one scheduler runs on another timeline")
     for g in root.walk():
         if not g.is_func:
             continue
